@@ -1,12 +1,14 @@
 package c20
 
 import (
+	"context"
 	"crypto/ecdsa"
 	"crypto/elliptic"
 	"crypto/rand"
 	"crypto/x509"
 	"crypto/x509/pkix"
 	"encoding/pem"
+	"errors"
 	"fmt"
 	"math/big"
 	"os"
@@ -20,6 +22,9 @@ import (
 	"github.com/go-jose/go-jose/v4"
 	"github.com/rs/zerolog"
 
+	"github.com/dadrus/heimdall/internal/cache"
+	_ "github.com/dadrus/heimdall/internal/cache/memory" // registers the in-memory cache
+	_ "github.com/dadrus/heimdall/internal/cache/redis"  // registers the redis caches
 	"github.com/dadrus/heimdall/internal/config"
 	"github.com/dadrus/heimdall/internal/keyholder"
 	"github.com/dadrus/heimdall/internal/otel/metrics/certificate"
@@ -45,10 +50,12 @@ type world struct {
 	pemKey  string            // key store with a private key and a certificate
 	pemCert string            // trust store
 	nfile   int
+
+	cacheTypes map[string]bool // cache type -> known to the cache factory registry
 }
 
 func newWorld() (*world, error) {
-	w := &world{saved: os.Environ(), keep: map[string]string{}}
+	w := &world{saved: os.Environ(), keep: map[string]string{}, cacheTypes: map[string]bool{}}
 	base := os.Getenv("VERIF_RUNDIR")
 	if base == "" {
 		base = os.TempDir()
@@ -224,8 +231,33 @@ func (w *world) checkUsable(o *outcome) {
 		}
 		if _, err = rules.NewRuleFactory(mf, o.conf, config.DecisionMode, logger); err != nil {
 			o.UseErr = "default_rule: " + short(err.Error(), 300)
+			return
+		}
+		if !w.cacheTypeKnown(o.conf.Cache.Type) {
+			o.UseErr = "cache: type '" + o.conf.Cache.Type + "' is unsupported"
 		}
 	}()
+}
+
+// cacheTypeKnown asks the real cache factory registry (the one the application's cache module uses at start-up)
+// whether it knows the type. The back end is not created with the configured options (it would connect): the
+// factory is called without options, everything but "unsupported type" counts as known.
+func (w *world) cacheTypeKnown(typ string) bool {
+	if known, ok := w.cacheTypes[typ]; ok {
+		return known
+	}
+	known := true
+	func() {
+		defer func() { _ = recover() }()
+		cch, err := cache.Create(typ, map[string]any{}, nopWatcher{}, nopObserver{})
+		if err != nil {
+			known = !errors.Is(err, cache.ErrUnsupportedCacheType)
+		} else if cch != nil {
+			_ = cch.Stop(context.Background())
+		}
+	}()
+	w.cacheTypes[typ] = known
+	return known
 }
 
 type nopWatcher struct{}
